@@ -24,6 +24,8 @@ import AbraModel.Drv.Render
 import AbraModel.Drv.HashMap
 import AbraModel.Drv.Assign
 import AbraModel.Drv.SpanTree
+import AbraModel.Drv.PatCompile
+import AbraModel.Drv.Mono
 /- Line-protocol model driver: one request per input line (`<component> <args…>`), one answer per line. -/
 open Abra.Drv
 
@@ -50,6 +52,7 @@ def dispatch (line : String) : String :=
   | "hostcall" :: rest => handleHostCall rest
   | "heapcopy" :: rest => handleHeapCopy rest
   | "pm" :: rest => handlePatMatrix rest
+  | "pc" :: rest => handlePatCompile rest
   | "sem" :: rest => handleSem rest
   | "cgen" :: rest => handleCgen rest
   | "arr" :: rest => handleArr rest
@@ -61,6 +64,7 @@ def dispatch (line : String) : String :=
   | "hmap" :: rest => handleHMap rest
   | "assign" :: rest => handleAssign rest
   | "spantree" :: rest => handleSpanTree rest
+  | "mono" :: rest => handleMono rest
   | _ => "bad-op"
 
 partial def loop (h : IO.FS.Stream) (out : IO.FS.Stream) : IO Unit := do
